@@ -258,6 +258,38 @@ pub fn decode(kind: &str, data: &[u8]) -> (Option<Rec>, Outcome) {
     (rec, outcome)
 }
 
+/// A reader that hands out at most `chunk` bytes per `read` call (as `BufReader`, pipes and
+/// sockets may): `Read::read` is allowed to return short counts.
+pub struct ShortReader<'a> { pub data: &'a [u8], pub pos: usize, pub chunk: usize }
+
+impl std::io::Read for ShortReader<'_> {
+    fn read(&mut self, buf: &mut [u8]) -> std::io::Result<usize> {
+        let n = buf.len().min(self.chunk).min(self.data.len() - self.pos);
+        buf[..n].copy_from_slice(&self.data[self.pos..self.pos + n]);
+        self.pos += n;
+        Ok(n)
+    }
+}
+
+/// Runs the real `read`/`parse` through a short-reading reader.
+pub fn decode_short(kind: &str, data: &[u8], chunk: usize) -> (Option<Rec>, Outcome) {
+    let mut r = ShortReader { data, pos: 0, chunk };
+    let res: Result<Option<Rec>, Outcome> = match kind {
+        "header" => StoredPointHeader::read(&mut r).map(|v| Some(Rec::Header(v))).map_err(perr),
+        "manifest" => StoredManifest::read(&mut r).map(|v| Some(Rec::Manifest(v))).map_err(perr),
+        "object" => StoredObject::read(&mut r).map(|v| v.map(Rec::Object)).map_err(perr),
+        "status" => StoredStatus::read(&mut r).map(|v| Some(Rec::Status(v))).map_err(perr),
+        "state" => RepositoryState::verif_parse(&mut r).map(|v| Some(Rec::State(v))).map_err(ioerr),
+        _ => panic!("unknown record kind {kind}")
+    };
+    let rest = data[r.pos..].to_vec();
+    match res {
+        Ok(Some(rec)) => { let f = rec.canonical(); (Some(rec), Outcome::Ok(f, rest)) }
+        Ok(None) => (None, Outcome::NoneAtEof),
+        Err(o) => (None, o)
+    }
+}
+
 /// The same; also returns the largest single allocation request made by the
 /// real reader (and whether it was a zero-initialised one). Only the call of
 /// the reader is measured, not the harness's own bookkeeping.
